@@ -36,3 +36,4 @@ CFG = dict(
 
 CFG["rule"] += " Besides the alphabet: descriptor set 9 ('*'-kind rules: one on another method's GET node, one '*' + GET pair of a single method; probed with DELETE and POST), set 10 (a service whose streaming method cannot be bound after its unary method was handled), set 11 (SvcA redeployed without one method: same service names, another method set), each in histories with every operation of the alphabet before / between / after, plus random histories over the extended alphabet."
 CFG["rule"] += ' Also set 12 (a valid server-streaming method beside unary ones) and set 13 (a newer deployment whose method A1 has one more binding: variant entry V... of the catalogue), in dedicated histories.'
+CFG["rule"] += ' Local registrations (L<impl>.<desc>) pass the same implementation object every time implementation <impl> is registered.'
